@@ -25,6 +25,7 @@ def to_zstr(x):
     parts = re.split("(\x00\\d+\x00)", x); terms = [(_MARK[p] if p in _MARK else z3.StringVal(p)) for p in parts if p != ""]
     if not terms: return z3.StringVal("")
     return z3.Concat(*terms) if len(terms) > 1 else terms[0]
+class Unsupported(Exception): pass
 class SymStr:
     def __init__(self, t): self.t = t
     def __add__(self, o): return SymStr(z3.Concat(self.t, to_zstr(o)))
@@ -34,6 +35,9 @@ class SymStr:
     def __hash__(self): return id(self)
     def __format__(self, spec): return _mark(self.t)
     __str__ = __repr__ = lambda self: _mark(self.t)
+    def __getattr__(self, name):          # a string method the encoding does not model (lower, upper, ...): the symbolic case is undecided, the executed corpus decides
+        if name.startswith("__"): raise AttributeError(name)
+        raise Unsupported(f"str.{name} on a symbolic name is outside the modelled string theory")
 class SymCount:
     """dict str->int with default (models counts.get(k, 0) / counts[k] = v) as a z3 array"""
     def __init__(self, arr): self.arr = arr
@@ -204,6 +208,8 @@ def _corpus():
             def __init__(self):
                 self.submodules.s0 = Sub(); self.submodules.s1 = Sub()
                 self.w = Signal(name_override="wire"); self.l = Signal(3, name_override="logic"); self.e = Signal(name_override="endmodule"); self.o = Signal(8)
+                self.dq_port = Signal(name_override="Dq_1"); self.dqa = Signal(name_override="Dq"); self.dqb = Signal(name_override="Dq"); self.dqc = Signal(name_override="dq")      # mixed-case base name used twice beside a port literally called Dq_1
+                self.comb += [self.dqa.eq(self.dq_port), self.dqb.eq(~self.dq_port), self.dqc.eq(self.dqa ^ self.dqb)]
                 self.specials.table = m0 = Memory(8, 4, name="table"); self.specials.mem2 = m1 = Memory(8, 4, name="table"); self.specials.mem3 = m2 = Memory(4, 4, name="storage"); self.specials.mem4 = m3 = Memory(4, 4, name="storage")
                 ps = [m.get_port(write_capable=True) for m in (m0, m1, m2, m3)]; self.specials += ps
                 self.st = Signal(2, name_override="storage")
@@ -214,7 +220,7 @@ def _corpus():
                 self.ports = [x for p_ in ps for x in (p_.adr, p_.dat_w, p_.we, p_.dat_r) if x is not None]
                 self.comb += self.o.eq(Cat(self.w, self.l, self.e, self.st) ^ ps[0].dat_r ^ ps[1].dat_r)
                 self.sync += self.st.eq(self.st + 1)
-        d = T(); return d, set(d.ports) | {d.o, d.s0.input, d.s1.input, d.s0.o, d.s1.o, d.w, d.l, d.e}
+        d = T(); return d, set(d.ports) | {d.o, d.s0.input, d.s1.input, d.s0.o, d.s1.o, d.w, d.l, d.e, d.dq_port, d.dqc}
     out.append(("keywords-and-equal-names-via-user-names(signals,memories,instances)", kwnames))
     def attrs():
         """declarations carrying several translated and platform attributes, converted with a platform-style attr_translate table (the Xilinx one:
